@@ -524,13 +524,13 @@ structure Inv (pop0 : List Lock) (maxV : Nat) (s e key : Bytes) (st : ResolveOut
   keyGe : Bytes.le s key = true
   prog : ∀ l, Elig pop0 maxV s e l → (∃ b ∈ st.batches, l ∈ b) ∨ (l ∈ st.pop ∧ Bytes.le key l.key = true)
   gone : ∀ b ∈ st.batches, ∀ l ∈ b, l ∉ st.pop
-  only : ∀ l ∈ pop0, l ∉ st.pop → (l.ts ≤ maxV ∧ (InRange s e l.key ∨ l.primary = true))
+  only : ∀ l ∈ pop0, l ∉ st.pop → l.ts ≤ maxV
 
 structure Final (pop0 : List Lock) (maxV : Nat) (s e : Bytes) (out : ResolveOut) : Prop where
   all : ∀ l, Elig pop0 maxV s e l → ∃ b ∈ out.batches, l ∈ b
   sub : ∀ l ∈ out.pop, l ∈ pop0
   gone : ∀ b ∈ out.batches, ∀ l ∈ b, l ∉ out.pop
-  only : ∀ l ∈ pop0, l ∉ out.pop → (l.ts ≤ maxV ∧ (InRange s e l.key ∨ l.primary = true))
+  only : ∀ l ∈ pop0, l ∉ out.pop → l.ts ≤ maxV
 
 /-- the request end key never leaves `[.., e)` and equals the region end or `e` -/
 theorem reqEnd_cases (e locEnd : Bytes) :
@@ -551,33 +551,35 @@ theorem reqEnd_cases (e locEnd : Bytes) :
     · have := hc he
       exact .inr ⟨this.1, (not_lt_iff_le _ _).mp this.2⟩
 
-theorem touchedBy_cases {locks : List Lock} {wb : Bool} {l : Lock} (h : touchedBy locks wb l = true) :
-    l ∈ locks ∨ (l.primary = true ∧ ∃ x ∈ locks, x.ts = l.ts) := by
+theorem touchedBy_cases {locks : List Lock} {wb : Bool} {inReg : Lock → Bool} {l : Lock}
+    (h : touchedBy locks wb inReg l = true) : l ∈ locks ∨ (∃ x ∈ locks, x.ts = l.ts) := by
   simp only [touchedBy, Bool.or_eq_true, Bool.and_eq_true, List.contains_iff_mem, List.any_eq_true,
     beq_iff_eq] at h
-  rcases h with ⟨_, h⟩ | ⟨h1, h2⟩
+  rcases h with ⟨_, h | ⟨_, h⟩⟩ | ⟨_, h2⟩
   · exact .inl h
-  · exact .inr ⟨h1, h2⟩
+  · exact .inr h
+  · exact .inr h2
 
-theorem touchedBy_of_mem {locks : List Lock} {l : Lock} (h : l ∈ locks) : touchedBy locks true l = true := by
+theorem touchedBy_of_mem {locks : List Lock} {inReg : Lock → Bool} {l : Lock} (h : l ∈ locks) :
+    touchedBy locks true inReg l = true := by
   simp [touchedBy, h]
 
 /-- one handled batch keeps the invariant, as long as the cursor does not move past an unresolved lock -/
 theorem resolved_inv {pop0 : List Lock} {maxV : Nat} {s e key key' reqEnd : Bytes} {st : ResolveOut}
-    {locks : List Lock} {limit : Nat} {wb : Bool}
+    {locks : List Lock} {limit : Nat} {wb : Bool} {inReg : Lock → Bool}
     (hinv : Inv pop0 maxV s e key st)
     (hF1 : ∀ l ∈ locks, l ∈ st.pop ∧ Bytes.le key l.key = true ∧ Elig pop0 maxV s e l)
     (P : Lock → Prop)
     (hP : ∀ l, Elig pop0 maxV s e l → l ∈ st.pop → Bytes.le key l.key = true →
-      touchedBy locks wb l = false → P l) :
-    let st' := resolved st key' reqEnd locks limit wb
+      touchedBy locks wb inReg l = false → P l) :
+    let st' := resolved st key' reqEnd locks limit wb inReg
     Sorted st'.pop ∧ (∀ l ∈ st'.pop, l ∈ pop0) ∧ (∀ b ∈ st'.batches, ∀ l ∈ b, l ∉ st'.pop) ∧
-    (∀ l ∈ pop0, l ∉ st'.pop → (l.ts ≤ maxV ∧ (InRange s e l.key ∨ l.primary = true))) ∧
+    (∀ l ∈ pop0, l ∉ st'.pop → l.ts ≤ maxV) ∧
     (∀ l, Elig pop0 maxV s e l → (∃ b ∈ st'.batches, l ∈ b) ∨ (l ∈ st'.pop ∧ P l)) := by
   intro st'
-  have hpop' : ∀ l, l ∈ st'.pop ↔ (l ∈ st.pop ∧ touchedBy locks wb l = false) := by
+  have hpop' : ∀ l, l ∈ st'.pop ↔ (l ∈ st.pop ∧ touchedBy locks wb inReg l = false) := by
     intro l; simp [st', resolved, List.mem_filter]
-  have hbat' : ∀ b, b ∈ st'.batches ↔ (b ∈ st.batches ∨ b = st.pop.filter (touchedBy locks wb)) := by
+  have hbat' : ∀ b, b ∈ st'.batches ↔ (b ∈ st.batches ∨ b = st.pop.filter (touchedBy locks wb inReg)) := by
     intro b; simp [st', resolved]
   refine ⟨List.Pairwise.filter _ hinv.sorted, fun l hl => hinv.sub l ((hpop' l).mp hl).1, ?_, ?_, ?_⟩
   · intro b hb l hl hp
@@ -588,25 +590,25 @@ theorem resolved_inv {pop0 : List Lock} {maxV : Nat} {s e key key' reqEnd : Byte
       rw [((hpop' l).mp hp).2] at this; cases this
   · intro l hl hn
     by_cases hp : l ∈ st.pop
-    · cases ht : touchedBy locks wb l with
+    · cases ht : touchedBy locks wb inReg l with
       | false => exact absurd ((hpop' l).mpr ⟨hp, ht⟩) hn
       | true =>
-        rcases touchedBy_cases ht with hk | ⟨hpr, x, hx, hxt⟩
-        · have := (hF1 l hk).2.2; exact ⟨this.2.1, .inl this.2.2⟩
-        · have := (hF1 x hx).2.2; exact ⟨by rw [← hxt]; exact this.2.1, .inr hpr⟩
+        rcases touchedBy_cases ht with hk | ⟨x, hx, hxt⟩
+        · exact (hF1 l hk).2.2.2.1
+        · rw [← hxt]; exact (hF1 x hx).2.2.2.1
     · exact hinv.only l hl hp
   · intro l hl
     rcases hinv.prog l hl with ⟨b, hb, hlb⟩ | ⟨hp, hk⟩
     · exact .inl ⟨b, (hbat' b).mpr (.inl hb), hlb⟩
-    · cases ht : touchedBy locks wb l with
+    · cases ht : touchedBy locks wb inReg l with
       | true => exact .inl ⟨_, (hbat' _).mpr (.inr rfl), List.mem_filter.mpr ⟨hp, ht⟩⟩
       | false => exact .inr ⟨(hpop' l).mpr ⟨hp, ht⟩, hP l hl hp hk ht⟩
 
-theorem resolveLoop_final (layouts : Nat → Layout) (retry : Nat → Bytes → List Lock → Bool) (maxV : Nat) (s e : Bytes)
+theorem resolveLoop_final (layouts rl : Nat → Layout) (retry : Nat → Bytes → List Lock → Bool) (maxV : Nat) (s e : Bytes)
     (limit : Nat) (pop0 : List Lock) (hkeys : ∀ l ∈ pop0, l.key ≠ [])
     (fuel i : Nat) (key : Bytes) (st out : ResolveOut)
     (hinv : Inv pop0 maxV s e key st)
-    (hrun : resolveLoop layouts retry maxV e limit fuel i key st = some out) : Final pop0 maxV s e out := by
+    (hrun : resolveLoop layouts rl retry maxV e limit fuel i key st = some out) : Final pop0 maxV s e out := by
   induction fuel generalizing i key st with
   | zero => simp [resolveLoop] at hrun
   | succ fuel ih =>
@@ -636,7 +638,7 @@ theorem resolveLoop_final (layouts : Nat → Layout) (retry : Nat → Bytes → 
           · exact .inr (lt_of_lt_of_le h2 hb2)
     split at hrun
     · -- nil location: scan again from the same key
-      obtain ⟨h1, h2, h3, h4, h5⟩ := resolved_inv (key' := key) (reqEnd := reqEnd) (limit := limit) (wb := false)
+      obtain ⟨h1, h2, h3, h4, h5⟩ := resolved_inv (key' := key) (reqEnd := reqEnd) (limit := limit) (wb := false) (inReg := batchRegion (rl i) locks)
         hinv hF1 (fun l => Bytes.le key l.key = true) (fun l _ _ hk _ => hk)
       exact ih _ _ _ ⟨h1, h2, hinv.keyGe, h5, h3, h4⟩ hrun
     · -- a lock left out of the batch is eligible for the request unless it lies behind the request end
@@ -657,18 +659,18 @@ theorem resolveLoop_final (layouts : Nat → Layout) (retry : Nat → Bytes → 
             · exact hne h
             · have := lt_of_le_of_lt hge h; simp [lt_irrefl] at this
           · exact ⟨hr, by rw [← hr]; exact hnr.1, by rw [← hr]; exact hge⟩
-      have hnotin : ∀ l, touchedBy locks true l = false → l ∉ locks := by
+      have hnotin : ∀ l, touchedBy locks true (batchRegion (rl i) locks) l = false → l ∉ locks := by
         intro l ht hl; rw [touchedBy_of_mem hl] at ht; cases ht
       by_cases hlen : locks.length < limit
       · -- region finished: continue at the region end
         simp only [hlen, if_true] at hrun
         have hafter : ∀ l, Elig pop0 maxV s e l → l ∈ st.pop → Bytes.le key l.key = true →
-            touchedBy locks true l = false → (locEnd ≠ [] ∧ Bytes.le locEnd l.key = true) := by
+            touchedBy locks true (batchRegion (rl i) locks) l = false → (locEnd ≠ [] ∧ Bytes.le locEnd l.key = true) := by
           intro l hl hp hk ht
           rcases hbehind l hl hk with h | ⟨_, h2, h3⟩
           · exfalso; apply hnotin l ht; rw [← hlocks]; rw [← hlocks] at hlen; exact scan_complete hlen hp h
           · exact ⟨h2, h3⟩
-        obtain ⟨h1, h2, h3, h4, h5⟩ := resolved_inv (key' := key) (reqEnd := reqEnd) (limit := limit) (wb := true)
+        obtain ⟨h1, h2, h3, h4, h5⟩ := resolved_inv (key' := key) (reqEnd := reqEnd) (limit := limit) (wb := true) (inReg := batchRegion (rl i) locks)
           hinv hF1 _ hafter
         split at hrun
         · rename_i hstop
@@ -705,7 +707,7 @@ theorem resolveLoop_final (layouts : Nat → Layout) (retry : Nat → Bytes → 
           simp only [hlast] at hrun
           have hlm : last ∈ locks := List.mem_of_getLast? hlast
           have hafter : ∀ l, Elig pop0 maxV s e l → l ∈ st.pop → Bytes.le key l.key = true →
-              touchedBy locks true l = false → Bytes.le last.key l.key = true := by
+              touchedBy locks true (batchRegion (rl i) locks) l = false → Bytes.le last.key l.key = true := by
             intro l hl hp hk ht
             have hn := hnotin l ht
             rcases hbehind l hl hk with h | ⟨hr, h2, h3⟩
@@ -717,7 +719,7 @@ theorem resolveLoop_final (layouts : Nat → Layout) (retry : Nat → Bytes → 
               rcases this.1.2 with h | h
               · rw [hr] at h; exact absurd h h2
               · rw [hr] at h; exact le_of_lt (lt_of_lt_of_le h h3)
-          obtain ⟨h1, h2, h3, h4, h5⟩ := resolved_inv (key' := key) (reqEnd := reqEnd) (limit := limit) (wb := true)
+          obtain ⟨h1, h2, h3, h4, h5⟩ := resolved_inv (key' := key) (reqEnd := reqEnd) (limit := limit) (wb := true) (inReg := batchRegion (rl i) locks)
             hinv hF1 _ hafter
           have hlastE := (hF1 last hlm)
           split at hrun
